@@ -95,10 +95,18 @@ pub fn diff_from(s: &Sexp) -> R<MappingsDiff> {
 fn cps<T: AsRef<JavaStr>>(t: &T) -> Vec<u32> { t.as_ref().chars().map(|c| c.as_u32()).collect() }
 fn str_cps(s: &str) -> Vec<u32> { s.chars().map(|c| c as u32).collect() }
 
-/// `escape`: every LF becomes backslash, `n`
+/// `escape` of quill/src/tiny_v2.rs: backslash, LF, CR and TAB become backslash-backslash, backslash-n, backslash-r, backslash-t
 fn escape(s: &[u32]) -> Vec<u32> {
 	let mut out = Vec::new();
-	for &c in s { if c == 10 { out.push(92); out.push(110); } else { out.push(c); } }
+	for &c in s {
+		match c {
+			92 => { out.push(92); out.push(92); }
+			10 => { out.push(92); out.push(110); }
+			13 => { out.push(92); out.push(114); }
+			9 => { out.push(92); out.push(116); }
+			_ => out.push(c),
+		}
+	}
 	out
 }
 
